@@ -5,6 +5,8 @@
    chk, all   totalMemoryLeaks(checking) / (all) right after the operation
    failures   failure count of the TestResult at the start and at the end of a test
    leakfail   number of leak failures recorded for the test (0 or 1), own = number of other failures
+   res        realloc / rfail: "moved" (a block came back) or "null"
+   kept       end: number of tracked copies of leak failures the output allocated while the failure was reported
    listed     the blocks named in the leak failure / final report (allocation numbers mapped back to script ids),
               stated = the total the report states; a truncated report ("Too many leaks") may list a subset *)
 EXTENDS LeakPlugin, Json, IOUtils
@@ -24,10 +26,12 @@ OpObs(o, inTest) == /\ E.ran = o.ran
 Call == \/ Is("begin") /\ Begin /\ E.failures = out'.failures
         \/ Is("alloc") /\ E.arg = nextId /\ AllocOp(E.ph) /\ OpObs(out', cur # 0)
         \/ Is("free") /\ FreeOp(E.ph, E.arg) /\ OpObs(out', cur # 0)
+        \/ Is("realloc") /\ E.arg2 = nextId /\ ReallocOp(E.ph, E.arg, TRUE) /\ OpObs(out', cur # 0) /\ (out'.ran => E.res = "moved")
+        \/ Is("rfail") /\ ReallocOp(E.ph, E.arg, FALSE) /\ OpObs(out', cur # 0) /\ (out'.ran => E.res = "null")
         \/ Is("expect") /\ ExpectOp(E.ph, E.arg) /\ OpObs(out', cur # 0)
         \/ Is("ignore") /\ IgnoreOp(E.ph) /\ OpObs(out', cur # 0)
         \/ Is("fail") /\ FailOp(E.ph) /\ OpObs(out', cur # 0)
-        \/ Is("end") /\ End /\ E.leakfail = (IF out'.leakfail THEN 1 ELSE 0) /\ E.own = out'.own /\ E.failures = out'.failures
+        \/ Is("end") /\ (E.arg # 0 => E.arg = nextId) /\ End(E.arg # 0) /\ E.kept = out'.kept /\ E.leakfail = (IF out'.leakfail THEN 1 ELSE 0) /\ E.own = out'.own /\ E.failures = out'.failures
                      /\ (out'.leakfail => ListedOK(out'.listed))
         \/ Is("final") /\ Final /\ ListedOK(out'.listed)
 TInit == Init /\ l = 1
@@ -49,10 +53,12 @@ TInv == TypeOK /\ Refines /\ UniqueIds /\ LastOK
 PCall == \/ Is("begin") /\ Begin
          \/ Is("alloc") /\ AllocOp(E.ph)
          \/ Is("free") /\ FreeOp(E.ph, E.arg)
+         \/ Is("realloc") /\ ReallocOp(E.ph, E.arg, TRUE)
+         \/ Is("rfail") /\ ReallocOp(E.ph, E.arg, FALSE)
          \/ Is("expect") /\ ExpectOp(E.ph, E.arg)
          \/ Is("ignore") /\ IgnoreOp(E.ph)
          \/ Is("fail") /\ FailOp(E.ph)
-         \/ Is("end") /\ End
+         \/ Is("end") /\ End(E.arg # 0)
          \/ Is("final") /\ Final
 PSpec == TInit /\ [][PCall \/ TReset]_tvars
 Predict == (l > 1 /\ l - 1 >= atoi(IOEnv.FROM_LINE_N)) =>
